@@ -334,8 +334,9 @@ def load_functions(names, name_space, modules):
         if name not in name_space:
             funcs = ((getattr(module, name, None), module)
                      for module in modules)
+            # (a constant of the math module, tau or e, is not a function)
             f, module = next(
-                (f for f in funcs if f[0] is not None), (None, None))
+                (f for f in funcs if callable(f[0])), (None, None))
             if f is None:
                 not_found.add(name)
             else:
